@@ -557,10 +557,10 @@ theorem Frame.step' (F : Frame R) (E : Edits R) (hD : ∀ j a u, R j a (a.setDis
 /-- If a reflexive, transitive relation `P` between networks holds across every command that carries no further command,
 across everything that only tears sessions / connections down, across the bookkeeping of an accepted terminal command
 (`last_active_step`, the local login and its connection), then it holds across every request, nested to any depth. -/
-theorem exec_induction'' (P : Net → Net → Prop) (refl : ∀ n, P n n) (trans : ∀ a b c, P a b → P b c → P a c)
+theorem exec_induction_now (P : Net → Net → Prop) (refl : ∀ n, P n n) (trans : ∀ a b c, P a b → P b c → P a c)
     (hAtomic : ∀ c, c.atomic = true → ∀ n y, P n (execCmd c n y).1)
     (hDisc : ∀ n y cid, P n (disconnect n.fuel n y cid))
-    (hTouch : ∀ n y cid t, P n (n.upd y (Node.touch cid t)))
+    (hTouch : ∀ n y cid, P n (n.upd y (Node.touch cid n.time)))
     (hLogin : ∀ n y u p, P n (localLogin n y u p).1)
     (hLocal : ∀ n y u p id, (localLogin n y u p).2 = some id →
       P n ((localLogin n y u p).1.upd y (Node.addConn ⟨id, none⟩))) :
@@ -580,7 +580,7 @@ theorem exec_induction'' (P : Net → Net → Prop) (refl : ∀ n, P n n) (trans
     rcases opRemoteCmdK_cases (fun m => execCmd c m z) n y z with ⟨h0, _⟩ | ⟨a, b, cn, _, ⟨_, _, h0, _⟩ | ⟨_, h0, _⟩⟩ <;>
       simp only [execCmd] <;> rw [h0]
     · exact refl n
-    · exact trans _ _ _ (hTouch _ _ _ _) (ih _ _)
+    · exact trans _ _ _ (hTouch _ _ _) (ih _ _)
     · exact hDisc _ _ _
   | file k => exact hAtomic _ rfl
   | addUser u p adm => exact hAtomic _ rfl
@@ -594,6 +594,17 @@ theorem exec_induction'' (P : Net → Net → Prop) (refl : ∀ n, P n n) (trans
   | shutdown => exact hAtomic _ rfl
   | startup => exact hAtomic _ rfl
   | reset => exact hAtomic _ rfl
+
+/-- the same with the session's clock set to an arbitrary value (for relations that do not look at clocks) -/
+theorem exec_induction'' (P : Net → Net → Prop) (refl : ∀ n, P n n) (trans : ∀ a b c, P a b → P b c → P a c)
+    (hAtomic : ∀ c, c.atomic = true → ∀ n y, P n (execCmd c n y).1)
+    (hDisc : ∀ n y cid, P n (disconnect n.fuel n y cid))
+    (hTouch : ∀ n y cid t, P n (n.upd y (Node.touch cid t)))
+    (hLogin : ∀ n y u p, P n (localLogin n y u p).1)
+    (hLocal : ∀ n y u p id, (localLogin n y u p).2 = some id →
+      P n ((localLogin n y u p).1.upd y (Node.addConn ⟨id, none⟩))) :
+    ∀ (c : Cmd) (n : Net) (y : Nat), P n (execCmd c n y).1 :=
+  exec_induction_now P refl trans hAtomic hDisc (fun n y cid => hTouch n y cid n.time) hLogin hLocal
 
 theorem exec_induction' (P : Net → Net → Prop) (refl : ∀ n, P n n) (trans : ∀ a b c, P a b → P b c → P a c)
     (hAtomic : ∀ c, c.atomic = true → ∀ n y, P n (execCmd c n y).1)
